@@ -73,6 +73,19 @@ impl<T: ServiceStateActions + Send> ServiceManager<T> {
         }
     }
 
+    /// Whether the service's process is alive. Only a "process not found" answer means that it
+    /// is not: any other failure to query the process list is an error, not "stopped".
+    fn is_process_running(&self) -> Result<bool> {
+        match self
+            .service_control
+            .get_process_pid(&self.service.bin_path())
+        {
+            Ok(_) => Ok(true),
+            Err(ServiceError::ServiceProcessNotFound(_)) => Ok(false),
+            Err(err) => Err(err.into()),
+        }
+    }
+
     pub async fn start(&mut self) -> Result<()> {
         info!("Starting the {} service", self.service.name());
         if ServiceStatus::Running == self.service.status() {
@@ -81,11 +94,7 @@ impl<T: ServiceStateActions + Send> ServiceManager<T> {
             // of a fault, we will drop to the code below and attempt to start it again.
             // We use `get_process_pid` because it searches for the process with the service binary
             // path, and this path is unique to each service.
-            if self
-                .service_control
-                .get_process_pid(&self.service.bin_path())
-                .is_ok()
-            {
+            if self.is_process_running()? {
                 debug!("The {} service is already running", self.service.name());
                 if self.verbosity != VerbosityLevel::Minimal {
                     println!("The {} service is already running", self.service.name());
@@ -186,11 +195,7 @@ impl<T: ServiceStateActions + Send> ServiceManager<T> {
                 let pid = self.service.pid().ok_or(Error::PidNotSet)?;
                 let name = self.service.name();
 
-                if self
-                    .service_control
-                    .get_process_pid(&self.service.bin_path())
-                    .is_ok()
-                {
+                if self.is_process_running()? {
                     if self.verbosity != VerbosityLevel::Minimal {
                         println!("Attempting to stop {}...", name);
                     }
@@ -229,11 +234,7 @@ impl<T: ServiceStateActions + Send> ServiceManager<T> {
 
     pub async fn remove(&mut self, keep_directories: bool) -> Result<()> {
         if let ServiceStatus::Running = self.service.status() {
-            if self
-                .service_control
-                .get_process_pid(&self.service.bin_path())
-                .is_ok()
-            {
+            if self.is_process_running()? {
                 error!(
                     "Service {} is already running. Stop it before removing it",
                     self.service.name()
@@ -585,7 +586,7 @@ pub async fn refresh_node_registry(
                     );
                     service.on_start(Some(pid), full_refresh).await?;
                 }
-                Err(_) => {
+                Err(ServiceError::ServiceProcessNotFound(_)) => {
                     match service.status() {
                         ServiceStatus::Added => {
                             // If the service is still at `Added` status, there hasn't been an attempt
@@ -610,6 +611,8 @@ pub async fn refresh_node_registry(
                         }
                     }
                 }
+                // Failing to query the process is not the same as the process being gone.
+                Err(err) => return Err(err.into()),
             }
         }
     }
